@@ -411,6 +411,16 @@ func checkC05(rc *Run) error {
 						}
 					}
 				}
+				// a second named deviation, separated out the same way: the merge key `<<` is written with an explicit `!!merge` tag
+				if len(out.Rows) == len(c.Rows) {
+					for i := range c.Rows {
+						w, g := c.Rows[i], out.Rows[i]
+						if w.K == "scalar" && w.Val == "<<" && w.Tag == "" && g.Tag == "!!merge" {
+							rc.Report("tag-on-merge-key", fmt.Sprintf("yq . on %q prints %q: the merge key `<<` comes out as `!!merge <<`", short(text), short(p.Stdout)), concrete)
+							out.Rows[i].Tag = ""
+						}
+					}
+				}
 				if f, nd := compareRows(c.Rows, out.Rows); f != "" {
 					rc.Report("attr-"+f+":"+nd+":"+c.label(), fmt.Sprintf("yq . on %q prints %q: %s of a %s node differs from the input's", short(text), short(p.Stdout), f, nd), concrete)
 					continue
@@ -425,7 +435,9 @@ func checkC05(rc *Run) error {
 					rc.Report("comments:line-comment-of-anchored-or-tagged-empty-value", short(fmt.Sprintf("yq . on %q prints %q: the line comment behind an anchor / tag that decorates an empty value is lost or moves to another node", text, p.Stdout)), concrete)
 					continue
 				}
-				if strings.Join(out.Comments, "\x00") != strings.Join(in.Comments, "\x00") {
+				// (the reader attributes the comments of a CRLF text to other nodes than those of the LF text yq writes: the
+				// order the specification gives - text order - is accepted as well)
+				if strings.Join(out.Comments, "\x00") != strings.Join(in.Comments, "\x00") && strings.Join(out.Comments, "\x00") != strings.Join(concreteComments(c.Comments), "\x00") {
 					rc.Report("comments:"+c.label(), short(fmt.Sprintf("yq . on %q prints %q: comments %q became %q", text, p.Stdout, in.Comments, out.Comments)), concrete)
 					continue
 				}
